@@ -165,7 +165,7 @@ int ezc3d::ParametersNS::GroupNS::Parameter::read(ezc3d::c3d &file, int nbCharIn
 
     // number of dimension of parameter (0 for scalar)
     int nDimensions(file.readInt(1*ezc3d::DATA_TYPE::BYTE));
-    if (nDimensions == 0 && _data_type != DATA_TYPE::CHAR) // In the special case of a scalar
+    if (nDimensions == 0) // In the special case of a scalar
         _dimension.push_back(1);
     else // otherwise it's a matrix
         for (int i=0; i<nDimensions; ++i)
